@@ -18,7 +18,8 @@ RULE = ("metamorphic pairs of generated problems differing only in the nominals 
 MODELLED = "use of variable_nominal throughout transcribe() and _collint_get_lbx_ubx / initial-derivative nominals"
 NOT_MODELLED = "goal function nominals (C03/C17 harness), solver behaviour under rescaling, simulation (C09)"
 ASSUMPTIONS = []
-FEAT = {"bounds": True, "history": True, "objective": True, "path": True, "own_grid": False, "pvars": True}
+FEAT = {"bounds": True, "history": True, "objective": True, "path": True, "own_grid": False, "pvars": True,
+        "own_grid_late": True, "seeds": True}
 
 
 def run(ctx):
@@ -75,6 +76,25 @@ def nominal_vector(s, o):
     return [float(x) for x in nv]
 
 
+def seed_check(s, o, nv):
+    """x0 * nominal is the seed the user gave, in physical units"""
+    import casadi as ca
+    import numpy as np
+
+    p = o["p"]
+    for m, sd in enumerate(s.get("seeds", [])):
+        for v, val in sd.items():
+            f = ca.Function("i", [p.solver_input], [p.state_vector(v, m)])
+            idx = [int(round(float(x))) for x in np.array(f(ca.DM(list(range(o["nx"]))))).ravel()]
+            want = [float(Fraction(x)) for x in val["values"]] if isinstance(val, dict) else [float(Fraction(val))] * len(idx)
+            if len(want) != len(idx):
+                continue
+            for i, w in zip(idx, want):
+                if not tr.close(o["x0"][i] * nv[i], w, 1e-9):
+                    return {"what": "seed", "variable": v, "member": m, "x0_times_nominal": o["x0"][i] * nv[i], "seed": w}
+    return None
+
+
 def metamorphic(s, s2, o, ctx):
     import casadi as ca
     import numpy as np
@@ -86,6 +106,12 @@ def metamorphic(s, s2, o, ctx):
     for i, (a, b, c, d) in enumerate(zip(o["lbx"], o2["lbx"], o["ubx"], o2["ubx"])):
         if not tr.close(a * n1[i], b * n2[i], 1e-9) or not tr.close(c * n1[i], d * n2[i], 1e-9):
             return {"what": "physical box", "index": i, "a": [a * n1[i], c * n1[i]], "b": [b * n2[i], d * n2[i]]}
+    for i, (a, b) in enumerate(zip(o["x0"], o2["x0"])):
+        if not tr.close(a * n1[i], b * n2[i], 1e-9):
+            return {"what": "physical seed", "index": i, "a": a * n1[i], "b": b * n2[i]}
+    bad = seed_check(s, o, n1) or seed_check(s2, o2, n2)
+    if bad:
+        return bad
     X = [float(x) for x in o["X"][0]]
     X2 = [x * a / b for x, a, b in zip(X, n1, n2)]
     p2 = o2["p"]
